@@ -41,6 +41,9 @@ class Module:
             for child in ast.iter_child_nodes(node):
                 child._parent = node
         self.normalised, self.flagged = [], set()
+        if os.environ.get("SNT_NO_NORMALISE") != "1":
+            from .normalise import split_parallel_assignments
+            split_parallel_assignments(self.tree)
         inv = _inventory().get(relpath)
         if inv is not None and os.environ.get("SNT_NO_NORMALISE") != "1":
             from .normalise import normalise_module
